@@ -28,10 +28,19 @@ import (
 )
 
 const (
-	repoDir  = "/repo"
 	verifDir = "/verif"
 	goRoot   = "/opt/veriftools/go1.26.8"
 )
+
+// repoDir is the tree the checks rebuild from: /repo. VERIF_REPO points a run at a
+// scratch worktree instead (used only to evaluate seeded changes without touching /repo;
+// never set by a registered command).
+var repoDir = func() string {
+	if d := os.Getenv("VERIF_REPO"); d != "" {
+		return d
+	}
+	return "/repo"
+}()
 
 func goEnv() []string {
 	env := os.Environ()
@@ -116,7 +125,7 @@ func buildUnit(u *unit, scratch string, logw io.Writer) (bin string, ov overlayR
 	// The harness may add imports of repo packages; those listed in ExtraRoots are
 	// instrumented as well.
 	roots = append(roots, u.ExtraRoots...)
-	args := []string{"-dir", filepath.Join(repoDir, u.Module), "-modfile", mf, "-out", ovDir,
+	args := []string{"-repo", repoDir, "-dir", filepath.Join(repoDir, u.Module), "-modfile", mf, "-out", ovDir,
 		"-passes", strings.Join(u.Passes, ","), "-roots", strings.Join(roots, ",")}
 	if u.Exclude != "" {
 		args = append(args, "-exclude", u.Exclude)
